@@ -1268,3 +1268,253 @@ func c17NoForward(c *core.Ctx) {
 	c.Check(bad == "", "C17.noforward", "NewSchedule#normalise", pos, "NewSchedule applies %s to the last-scheduled time: a time in the last half second before an occurrence (a restart stamps active tasks with time.Now()) is moved onto the occurrence, Next() is strictly after its argument, and that run is skipped while the stored last-scheduled time has passed it", bad)
 	c.Floor("C17.noforward", "time.Time method calls in NewSchedule", n, 3)
 }
+
+// c16TickPhase (seed C16-10-r4): the aligned ticker labels every tick with now.Round(every). That is the tick's own time only
+// if the periodic ticker runs in phase with the boundaries, i.e. if it is created once the goroutine has waited for the first
+// aligned boundary. Created earlier (in Start, when the task starts) its phase is the task's start time: ticks are issued up to
+// half an interval before the boundary they are labelled with, or the first boundary is delivered twice.
+func c16TickPhase(c *core.Ctx, root *packages.Package) {
+	c.Rule("C16.tickphase", "A2 (order on every path of the aligned branch): in timeTicker.Start the periodic ticker of an aligned schedule is created inside the goroutine, behind the select that waits for the first aligned boundary: its phase is then the boundary's, and now.Round(every) is the tick's own time")
+	info := root.TypesInfo
+	fn := c.Need("C16.tickphase", "", "timeTicker", "Start")
+	if fn == nil {
+		return
+	}
+	c.Analysed(fn)
+	// the aligned branch: the if statement that contains the go statement
+	var lit *ast.FuncLit
+	var branch *ast.BlockStmt
+	ast.Inspect(fn.Decl.Body, func(n ast.Node) bool {
+		is, ok := n.(*ast.IfStmt)
+		if !ok {
+			return true
+		}
+		ast.Inspect(is.Body, func(m ast.Node) bool {
+			if g, ok := m.(*ast.GoStmt); ok {
+				if fl, ok := g.Call.Fun.(*ast.FuncLit); ok {
+					lit, branch = fl, is.Body
+				}
+			}
+			return true
+		})
+		return true
+	})
+	if lit == nil {
+		c.Undecided("C16.tickphase", "timeTicker.Start", fn.Decl.Pos(), "the goroutine of the aligned branch was not found")
+		return
+	}
+	// the wait: the first select of the goroutine
+	wait := token.NoPos
+	ast.Inspect(lit.Body, func(n ast.Node) bool {
+		if s, ok := n.(*ast.SelectStmt); ok && wait == token.NoPos {
+			wait = s.End()
+		}
+		return true
+	})
+	// creations of the periodic ticker in the aligned branch
+	n, bad := 0, token.NoPos
+	ast.Inspect(branch, func(nd ast.Node) bool {
+		as, ok := nd.(*ast.AssignStmt)
+		if !ok || len(as.Lhs) != 1 || len(as.Rhs) != 1 || !an.FieldSel(info, as.Lhs[0], "timeTicker", "ticker") {
+			return true
+		}
+		call, ok := as.Rhs[0].(*ast.CallExpr)
+		if !ok {
+			return true
+		}
+		if cal := core.Callee(info, call); cal == nil || cal.Name() != "NewTicker" {
+			return true
+		}
+		n++
+		inside := as.Pos() > lit.Body.Pos() && as.End() < lit.Body.End()
+		if !inside || wait == token.NoPos || as.Pos() < wait {
+			bad = as.Pos()
+		}
+		return true
+	})
+	if n == 0 {
+		c.Undecided("C16.tickphase", "timeTicker.Start", fn.Decl.Pos(), "the aligned branch creates no periodic ticker")
+		return
+	}
+	c.Check(bad == token.NoPos, "C16.tickphase", "timeTicker.Start#after-alignment", bad, "the aligned branch of timeTicker.Start creates the periodic ticker before the goroutine has waited for the first aligned boundary: the ticker's phase is the moment the task started, but every tick is labelled now.Round(every) — a task started 700ms into a 1s interval issues each tick 300ms before the boundary it names (the query covers a window that is not complete), one started 300ms in delivers the first boundary twice")
+}
+
+// c20Wiring (seed C20-10-r4): NewHandler takes five bools in a row; the compiler cannot tell them apart. Each configuration field
+// that NewService passes for one of them is, by name, that parameter's field: its name (without "Enabled") shares a longer
+// common substring with the name of the parameter at its position than with the name of any other bool parameter.
+func c20Wiring(c *core.Ctx) {
+	c.Rule("C20.wiring", "A3 (argument roles by name agreement): in every call of httpd.NewHandler each configuration field passed for a bool parameter matches the name of the parameter at its position better than the name of any other bool parameter (longest common substring, ignoring case and the word Enabled): pprof-enabled decides the debug routes, not write-tracing")
+	sp := c.P.Pkg("services/httpd")
+	if sp == nil {
+		return
+	}
+	info := sp.TypesInfo
+	nh := c.P.FindFunc("services/httpd", "", "NewHandler")
+	if nh == nil {
+		c.Undecided("C20.wiring", "anchor:NewHandler", token.NoPos, "function not found")
+		return
+	}
+	var params []string
+	var isBool []bool
+	for _, fl := range nh.Decl.Type.Params.List {
+		b := false
+		if bt, ok := info.TypeOf(fl.Type).Underlying().(*types.Basic); ok && bt.Kind() == types.Bool {
+			b = true
+		}
+		for _, nm := range fl.Names {
+			params = append(params, nm.Name)
+			isBool = append(isBool, b)
+		}
+	}
+	norm := func(s string) string {
+		s = strings.ToLower(s)
+		s = strings.ReplaceAll(s, "enabled", "")
+		s = strings.ReplaceAll(s, "enable", "")
+		return s
+	}
+	lcs := func(a, b string) int {
+		best := 0
+		for i := 0; i < len(a); i++ {
+			for j := 0; j < len(b); j++ {
+				k := 0
+				for i+k < len(a) && j+k < len(b) && a[i+k] == b[j+k] {
+					k++
+				}
+				if k > best {
+					best = k
+				}
+			}
+		}
+		return best
+	}
+	fo, _ := info.Defs[nh.Decl.Name].(*types.Func)
+	n := 0
+	for _, f := range core.AllFuncs(sp) {
+		ast.Inspect(f.Decl.Body, func(nd ast.Node) bool {
+			call, ok := nd.(*ast.CallExpr)
+			if !ok || core.Callee(info, call) != fo || len(call.Args) != len(params) {
+				return true
+			}
+			for i, a := range call.Args {
+				if !isBool[i] {
+					continue
+				}
+				sel, ok := ast.Unparen(a).(*ast.SelectorExpr)
+				if !ok {
+					continue // a literal
+				}
+				n++
+				field := norm(sel.Sel.Name)
+				own := lcs(field, norm(params[i]))
+				better := ""
+				for j, p := range params {
+					if j != i && isBool[j] && lcs(field, norm(p)) > own {
+						better = p
+					}
+				}
+				c.Check(better == "", "C20.wiring", f.Decl.Name.Name+"#"+params[i], a.Pos(), "%s passes %s for NewHandler's parameter %s, although by name it is the setting of parameter %s: the bools of NewHandler are positional and of one type — with pprof-enabled and write-tracing exchanged, write-tracing = true serves /debug/vars and /debug/pprof/* without credentials while auth-enabled is true", f.Decl.Name.Name, types.ExprString(a), params[i], better)
+			}
+			return true
+		})
+	}
+	c.Floor("C20.wiring", "configuration fields passed for bool parameters of NewHandler", n, 4)
+}
+
+// c19AgentWait (seed C19-10-r4): Agent.Wait returns only when both loops of the agent have reported. The wait-for-all idiom is a
+// loop around a select whose arms receive from a channel and then set it to nil; the loop has to go on while ANY of those channels
+// is still to be heard from: its condition is the disjunction of `<ch> != nil` over exactly the channels of the arms.
+func c19AgentWait(c *core.Ctx) {
+	c.Rule("C19.agentwait", "A6 (wait-for-all idiom): in Agent.Wait the loop around the select that receives the read loop's and the write loop's results and nils each channel continues while any of these channels is not nil (a disjunction over exactly the arms' channels): with a conjunction Wait returns after the first result, a process UDF exits while its last response is still being written, and the last point or the END of the last batch is lost")
+	ap := c.P.Pkg("udf/agent")
+	if ap == nil {
+		return
+	}
+	info := ap.TypesInfo
+	fn := c.Need("C19.agentwait", "udf/agent", "Agent", "Wait")
+	if fn == nil {
+		return
+	}
+	c.Analysed(fn)
+	var loop *ast.ForStmt
+	var sel *ast.SelectStmt
+	ast.Inspect(fn.Decl.Body, func(n ast.Node) bool {
+		if f, ok := n.(*ast.ForStmt); ok {
+			for _, st := range an.Effective(f.Body.List) {
+				if s, ok := st.(*ast.SelectStmt); ok {
+					loop, sel = f, s
+				}
+			}
+		}
+		return true
+	})
+	if loop == nil {
+		c.Undecided("C19.agentwait", "Agent.Wait", fn.Decl.Pos(), "no loop around a select found")
+		return
+	}
+	// channels of the arms that are set to nil in their arm
+	chans := map[string]bool{}
+	for _, cl := range sel.Body.List {
+		cc := cl.(*ast.CommClause)
+		var recv ast.Expr
+		switch x := cc.Comm.(type) {
+		case *ast.AssignStmt:
+			if len(x.Rhs) == 1 {
+				if u, ok := ast.Unparen(x.Rhs[0]).(*ast.UnaryExpr); ok && u.Op == token.ARROW {
+					recv = u.X
+				}
+			}
+		case *ast.ExprStmt:
+			if u, ok := ast.Unparen(x.X).(*ast.UnaryExpr); ok && u.Op == token.ARROW {
+				recv = u.X
+			}
+		}
+		if recv == nil {
+			continue
+		}
+		text := types.ExprString(recv)
+		for _, st := range cc.Body {
+			if as, ok := st.(*ast.AssignStmt); ok && len(as.Lhs) == 1 && len(as.Rhs) == 1 && types.ExprString(as.Lhs[0]) == text && types.ExprString(as.Rhs[0]) == "nil" {
+				chans[text] = true
+			}
+		}
+	}
+	_ = info
+	// the condition: a disjunction of `<ch> != nil`
+	got := map[string]bool{}
+	pure := loop.Cond != nil
+	var walk func(e ast.Expr)
+	walk = func(e ast.Expr) {
+		b, ok := ast.Unparen(e).(*ast.BinaryExpr)
+		if !ok {
+			pure = false
+			return
+		}
+		switch b.Op {
+		case token.LOR:
+			walk(b.X)
+			walk(b.Y)
+		case token.NEQ:
+			if types.ExprString(b.Y) == "nil" {
+				got[types.ExprString(b.X)] = true
+			} else {
+				pure = false
+			}
+		default:
+			pure = false
+		}
+	}
+	if loop.Cond != nil {
+		walk(loop.Cond)
+	}
+	same := pure && len(got) == len(chans) && len(chans) >= 2
+	for k := range chans {
+		if !got[k] {
+			same = false
+		}
+	}
+	cond := "none"
+	if loop.Cond != nil {
+		cond = types.ExprString(loop.Cond)
+	}
+	c.Check(same, "C19.agentwait", "Agent.Wait#wait-for-all", loop.Pos(), "Agent.Wait's loop runs under the condition %s, not while any of %v is still to be heard from: it ends after the first of the agent's two loops has reported — the read loop's result is already there when the handler is done, so Wait returns while the write loop has only just taken the last response; a process UDF (Start, Wait, exit) loses its last point, for a batch the END message and with it the whole last batch, and the write error is never reported", cond, an.SortedKeys(chans))
+}
